@@ -21,6 +21,10 @@ def run(chk):
     sv.judge(chk, "C26", cases, key_of, lambda c: "%s/gap=%d" % (c["label"], c["gap_ms"]),
              lambda tr: tr[0]["released"] or tr[0]["max_live_loops"] > 0)
     sv.design(chk, "IdleRelease", ["design_short", "design_long"], {"ascoded_short": "Inv_NoTimerLost"})
+    # the whole in-process stack around one run (ServerStack.tla; the same spec every recorded execution above was validated
+    # against): all its invariants and action properties on the intended design, the release-only-when-idle property
+    # violated by the model of the code as it is (recorded findings)
+    sv.design(chk, "ServerStack", [chk.pick("design_quick", "design"), "design_cancel"], {"ascoded": "Act_ReleaseOnlyWhenTrulyIdle"})
     # the DBOS stack: lifecycle lock (Lifecycle.tla) and DBOSIdleReleaseDecorator (DbosIdleRelease.tla)
     from harness.checks import _dbos_idle
     _dbos_idle.run_c26_part(chk)
